@@ -49,6 +49,16 @@ def run(ctx):
             d = 1 if fam == "CDBD" else 2
             items = [[[rng.randint(0, 9) for _ in range(d)] for _ in range(20)] for _ in range(9)]
             ts.append(P.clean_slate(fam, p, items, rng.randrange(10 ** 6), (rng.randint(3, 6),)))
+    # the caller keeps ONE buffer and refills it in place for every row / batch: what a detector carries into the new epoch (the drifted batch as the
+    # new reference, the window under construction) are the values it was given, so the fresh twin - started on a snapshot - still agrees
+    for fam in ("KdqTreeStreaming", "KdqTreeBatch", "HDDDM", "CDBD", "NNDVI"):
+        batch = P.families()[fam]["kind"] == "batch"
+        for i in range(3 if q else 20):
+            p = P.default_params(fam, rng)
+            n = rng.randint(10, 14) if batch else rng.randint(120, 200)
+            items = P.gen_items(fam, rng, n)
+            setref = sorted(rng.sample(range(3, n - 1), 1)) if batch and i % 2 == 0 else ()
+            ts.append(P.clean_slate(fam, p, items, rng.randrange(10 ** 6), setref, reuse=True))
     fams = {}
     for t in ts:
         d = fams.setdefault(t["fam"], {"histories": 0, "epochs": 0})
@@ -57,7 +67,7 @@ def run(ctx):
     ctx.parts["families"] = fams
     ctx.validate("Product", ts, "whole-history run vs fresh real twins per epoch (10 families)", sabotage=P.sabotage,
                  replay=lambda i: {"fam": ts[i]["fam"], "params": ts[i]["params"], "items": ts[i]["items"], "seed": ts[i]["seed"], "setref_at": ts[i]["setref_at"],
-                                   "user_reset": ts[i]["user_reset"], "no_initial_ref": ts[i]["no_initial_ref"]},
+                                   "user_reset": ts[i]["user_reset"], "no_initial_ref": ts[i]["no_initial_ref"], "reuse": ts[i].get("reuse", False)},
                  nontrivial=lambda t: sum(1 for e in t["ev"] if e["fresh"]) >= 2)
     ctx.assumptions += ["identical numpy seed immediately before step t in both runs", "CUSUM's twin receives the documented carry-over (mean / population "
                         "deviation of the last burn_in observations) as constructor arguments; batch twins receive the drifted batch as reference",
@@ -67,6 +77,6 @@ def run(ctx):
 
 def replay(ctx, bundle):
     r = bundle["replay"]
-    t = P.clean_slate(r["fam"], r["params"], r["items"], r["seed"], tuple(r["setref_at"]), r.get("user_reset", False), r.get("no_initial_ref", False))
+    t = P.clean_slate(r["fam"], r["params"], r["items"], r["seed"], tuple(r["setref_at"]), r.get("user_reset", False), r.get("no_initial_ref", False), r.get("reuse", False))
     ctx.validate("Product", [t], "replay", replay=lambda i: r)
     return ctx.finish()
